@@ -14,7 +14,7 @@
      pal256 / gray4                 the palette index / grey level chosen for a colour under the reduced
                                     depths: any functions (which entry is chosen is property C20) *)
 From Coq Require Import List NArith ZArith Bool.
-From SNT Require Import Base.Outcome Encoder.Decimal Encoder.Utf8 Encoder.Encode Encoder.EncodeOrig Encoder.VT
+From SNT Require Import Base.Outcome Encoder.Decimal Encoder.Utf8 Encoder.Encode Encoder.EncodeStream Encoder.EncodeOrig Encoder.VT
   Encoder.VTProofs Encoder.Denote Encoder.EncodeProofs Encoder.EncodeMeaning.
 Import ListNotations.
 Local Open Scope N_scope.
